@@ -80,6 +80,8 @@ def run(rep):
     rep.guard(c04_narrow.b4, rep, w)    # handler offsets that do not fit 16 bits are reported, not truncated (the handler would point into other code)
     import c15
     rep.guard(c15.n1, rep, w)     # the exception-in-flight flag does not survive into the next run (a later try statement would re-raise a phantom)
+    import c06
+    rep.guard(c06.s1, rep, w)     # delivering an exception drops the stack down to the handler's height: the variables of the try block a closure captured are closed first (the handler and the closure keep seeing them)
 
 
 def x1(rep, w):
